@@ -15,6 +15,14 @@ def fuzz(pkg, run, t="45s"):
     return {"pkg": pkg, "run": run, "kind": "fuzz", "tiers": ("thorough",), "fuzztime": {"thorough": t}}
 
 CHECKS = {
+    "C17": {
+        "level": "exploration",
+        "assumptions": ["all oxy time goes through internal/holsterv4/clock (frozen by the harness)", "the two-sided bracket [(N-1)r, Nr) admits every slot alignment a correct implementation may choose"],
+        "jobs": [
+            {"pkg": "props/c17", "run": "^TestC17_Regression$", "kind": "plain"},
+            rapid("props/c17", "^TestC17_(RollingCounter|RatioCounter)$", 4000, 60000, shards_t=8),
+        ],
+    },
     "C19": {
         "level": "exploration",
         "assumptions": ["net/http sets RemoteAddr to net.TCPAddr.String() of the peer", "netip.ParseAddrPort is the reference parser"],
@@ -27,6 +35,11 @@ CHECKS = {
 
 # Texts for MANIFEST.json (level text, trusted base, technique) per claimed property.
 MANIFEST_TEXT = {
+    "C17": {
+        "level": "Model-based property test: generated histories of increments, reads and clock advances (sub-resolution steps to multi-window gaps) for generated bucket counts and whole, fractional and ns-granular resolutions, under a frozen clock, compared at every read with a reference list of all increments through the two-sided window bracket of the statement (exact integer arithmetic). Exploration of bounded histories (<= 60 operations), not a proof.",
+        "note": "Trusts the frozen clock provider (internal/holsterv4/clock) and that the counters read time only through it.",
+        "technique": "stateful property-based testing (rapid) against a reference event list with a two-sided window invariant",
+    },
     "C19": {
         "level": "Generated-input search: tens of thousands of peer addresses in the exact forms net/http produces (IPv4, bracketed IPv6, zoned, v4-mapped), in related pairs, plus malformed strings, Host/header sets and variable names, each checked against an independent parser (net/netip) and the iff-equality relation; a coverage-guided byte-level target runs the same oracle in the thorough tier. Exploration, not proof: the input space is sampled with construction-based generators biased to the boundary shapes.",
         "note": "Trusts net/netip as reference address parser and net.TCPAddr.String() as the definition of 'forms an HTTP server can produce'.",
